@@ -11,6 +11,7 @@ import (
 	"sort"
 	"strings"
 	"sync"
+	"sync/atomic"
 	"testing"
 	"time"
 
@@ -155,6 +156,12 @@ type c39sFixtures struct {
 	// without the timestamp field
 	stampLess []byte
 }
+
+const c39sWatchdog = 30 * time.Second
+
+// c39sHung is set once a constructor hung: the rest of the enumeration is abandoned
+// (every further case with enough files would wait for the watchdog again).
+var c39sHung atomic.Bool
 
 var c39sEpoch = time.Date(2024, 1, 1, 0, 0, 0, 0, time.UTC)
 
@@ -302,9 +309,25 @@ func c39sRun(r *vrep.R, fx *c39sFixtures, cs c39sCase, c *venum.C) {
 			}
 		}
 		var pool *generator.ParameterPool[PreParams]
-		p, stack := vrep.Guard(func() {
-			pool = generator.NewParameterPool[PreParams](&testutils.MockLogger{}, &generator.Scheduler{}, &storage, cs.Size, idle, 0)
-		})
+		var p any
+		var stack string
+		built := make(chan struct{})
+		go func() {
+			defer close(built)
+			p, stack = vrep.Guard(func() {
+				pool = generator.NewParameterPool[PreParams](&testutils.MockLogger{}, &generator.Scheduler{}, &storage, cs.Size, idle, 0)
+			})
+		}()
+		// Watchdog only: the constructor does a handful of in-memory steps. If it is
+		// still not back after c39sWatchdog it is parked forever on a channel send
+		// into the full pool (the scheduled pool unit shows the same deterministically).
+		select {
+		case <-built:
+		case <-time.After(c39sWatchdog):
+			c39sHung.Store(true)
+			report("oversize", fmt.Sprintf("generation %d: NewParameterPool did not return (watchdog %s): it blocks loading more parameters than the configured size %d", gen, c39sWatchdog, cs.Size))
+			return
+		}
 		if p != nil {
 			report("panic", fmt.Sprintf("generation %d: NewParameterPool panicked: %v\n%s", gen, p, stack))
 			return
@@ -396,9 +419,13 @@ func TestVerifC39Storage(t *testing.T) {
 		if r.Expired() {
 			return
 		}
+		if c39sHung.Load() {
+			r.Cap("a constructor hung: enumeration abandoned after the report")
+			return
+		}
 		j := jobs[i]
 		cs := c39sCase{Mask: j.mask, Size: j.size, Bound: bound}
-		st := venum.Explore(venum.Options{Bound: bound, Workers: 1, Stop: r.Expired}, func(c *venum.C) {
+		st := venum.Explore(venum.Options{Bound: bound, Workers: 1, Stop: func() bool { return c39sHung.Load() || r.Expired() }}, func(c *venum.C) {
 			c39sRun(r, fx, cs, c)
 			// non-trivial: the storage had to tell complete files from others
 			valid := j.mask & (1<<c39sValidA | 1<<c39sValidB | 1<<c39sNoStamp)
